@@ -63,6 +63,12 @@ def run_case(case):
             if state["done"]:
                 return
             state["done"] = True
+            if kind == "cancelcaller":
+                # not a failure of its own: the caller of the command in flight gives up while the (silent) NCP is still being retried -
+                # the link's verdict must reach the application all the same
+                if 1 in calls and not calls[1].done():
+                    calls[1].cancel()
+                return
             ev({"a": "fail" if kind not in ("close", "close_slow") else "close", "kind": kind})
             if kind == "error":
                 rig._read(stackrig.ashref.wire({"type": "ERROR", "ver": 2, "code": code}))
@@ -144,8 +150,8 @@ def run_case(case):
         deadline = loop.time() + 90
         while loop.time() < deadline:
             await rig.settle()
-            if all(t.done() for t in calls.values()) and (state["done"] or k is None):
-                break
+            if all(t.done() for t in calls.values()) and (state["done"] or k is None) and not (kind == "cancelcaller" and rig.failed_at is None):
+                break           # (after a cancelled caller the retransmissions go on: wait for the link's verdict)
             when = rig.next_timer()
             if when is None:
                 break
@@ -234,8 +240,10 @@ def run(ctx: Ctx):
     for ver in vers:
         for wl in WORKLOADS:
             n = refs[(ver, wl)]
-            for kind in KINDS + ("close", "close_slow"):
-                if wl == "one_silent" and kind not in ("close", "close_slow", "lost", "eof"):
+            for kind in KINDS + ("close", "close_slow", "cancelcaller"):
+                if wl == "one_silent" and kind not in ("close", "close_slow", "lost", "eof", "cancelcaller"):
+                    continue
+                if kind == "cancelcaller" and wl != "one_silent":
                     continue
                 if kind == "silent" and wl == "reset":
                     continue      # an unanswered RST is reported by reset() itself (C11), the EZSP layer stays stopped
